@@ -154,3 +154,16 @@ Fixpoint sl_collect (fuel : nat) (it : split_lines) : res (list span) :=
     | (Some sp, it') => do rest <- sl_collect f it'; Ok (sp :: rest)
     end
   end.
+
+(** what a caller observes of [len()]: before every [next()] and once more after [None] *)
+Fixpoint sl_lens (fuel : nat) (it : split_lines) : res (list nat) :=
+  match fuel with
+  | 0 => Fuel
+  | S f =>
+    do l <- sl_len it;
+    do r <- sl_next it;
+    match r with
+    | (None, it') => do l' <- sl_len it'; Ok [l; l']
+    | (Some _, it') => do rest <- sl_lens f it'; Ok (l :: rest)
+    end
+  end.
